@@ -15,44 +15,8 @@ C10 — fault schedules and the object-level API of `tbox::util::AsyncPipe` (rou
 -/
 import TboxModel.C10.Progress
 import TboxModel.C10.Spec
+import TboxModel.C10.XModel
 namespace Tbox.C10
-
-/-! ### (1) allocation failure -/
-
-inductive XStep where
-  | base (st : Step)
-  | allocFail
-deriving Repr, DecidableEq
-
-/-- enabled exactly where `pTake` would allocate: the owner runs, needs a buffer, none is free, the limit is not reached -/
-def allocFailValid (s : State) : Bool :=
-  match s.owner with
-  | some o => !o.blocked && !o.remain.isEmpty && s.curr.isNone && s.free == 0 && decide (s.buffNum < s.cfg.maxN)
-  | none => false
-
-/-- the last acquired append keeps only what it wrote: its last `k` bytes never entered the pipe -/
-def cutLast (acq : List (Nat × List UInt8)) (k : Nat) : List (Nat × List UInt8) :=
-  match acq.getLast? with
-  | some (p, d) => acq.dropLast ++ [(p, d.take (d.length - k))]
-  | none => acq
-
-def allocFailStep (fixed : Bool) (s : State) : State :=
-  match s.owner with
-  | some o => { s with owner := none, buffNum := if fixed then s.buffNum else s.buffNum + 1,
-                       acq := cutLast s.acq o.remain.length, late := s.late || s.stop }
-  | none => s
-
-def xvalid (s : State) : XStep → Bool
-  | .base st => valid s st
-  | .allocFail => allocFailValid s
-
-def xstep (fixed : Bool) (s : State) : XStep → State
-  | .base st => step s st
-  | .allocFail => allocFailStep fixed s
-
-def xexec (fixed : Bool) (s : State) : List XStep → Option State
-  | [] => some s
-  | st :: sts => if xvalid s st then xexec fixed (xstep fixed s st) sts else none
 
 /-- the append in flight is the last one acquired, and what it still has to write is a suffix of it -/
 def LastInv (s : State) : Prop :=
@@ -209,6 +173,221 @@ theorem xexec_cfg (fixed : Bool) (sts : List XStep) : ∀ (s s' : State), xexec 
     · rw [ih _ _ he, xstep_cfg]
     · cases he
 
+/-! ### per-thread order under allocation failure (round 6) -/
+
+/-- `as` is `ds` in the same order, where an entry may be cut to a prefix (an append aborted by `bad_alloc` is recorded with
+exactly the prefix it wrote; every other append is recorded whole — a list is a prefix of itself) -/
+def CutsOf : List (List UInt8) → List (List UInt8) → Prop
+  | [], [] => True
+  | a :: as, d :: ds => a <+: d ∧ CutsOf as ds
+  | _, _ => False
+
+theorem cutsOf_snoc : ∀ (as ds : List (List UInt8)) (a d : List UInt8), CutsOf as ds → a <+: d → CutsOf (as ++ [a]) (ds ++ [d])
+  | [], [], a, d, _, h => by simp [CutsOf, h]
+  | [], _ :: _, _, _, h, _ => by simp [CutsOf] at h
+  | _ :: _, [], _, _, h, _ => by simp [CutsOf] at h
+  | x :: as, y :: ds, a, d, h, hp => by
+    simp only [CutsOf, List.cons_append] at h ⊢
+    exact ⟨h.1, cutsOf_snoc as ds a d h.2 hp⟩
+
+theorem cutsOf_snoc_inv : ∀ (as orig : List (List UInt8)) (a : List UInt8), CutsOf (as ++ [a]) orig →
+    ∃ ds d, orig = ds ++ [d] ∧ CutsOf as ds ∧ a <+: d
+  | [], [], _, h => by simp [CutsOf] at h
+  | [], [d], a, h => by simp only [List.nil_append, CutsOf] at h; exact ⟨[], d, rfl, by simp [CutsOf], h.1⟩
+  | [], _ :: _ :: _, _, h => by simp [CutsOf] at h
+  | _ :: _, [], _, h => by simp [CutsOf] at h
+  | x :: as, y :: orig, a, h => by
+    simp only [List.cons_append, CutsOf] at h
+    obtain ⟨ds, d, h1, h2, h3⟩ := cutsOf_snoc_inv as orig a h.2
+    exact ⟨y :: ds, d, by simp [h1], by simp [CutsOf, h.1, h2], h3⟩
+
+/-- per-thread order with allocation failures: what thread `p` has had recorded so far is, in order, its program so far — each
+append whole or (aborted) cut to a prefix — and what it still will append is the rest of its program -/
+def XProgInv (prog0 : Nat → List (List UInt8)) (s : State) : Prop :=
+  ∀ p, ∃ orig, orig ++ s.prog p = prog0 p ∧ CutsOf ((s.acq.filter (fun a => a.1 == p)).map (·.2)) orig
+
+theorem cutsOf_refl : ∀ (l : List (List UInt8)), CutsOf l l
+  | [] => by simp [CutsOf]
+  | x :: l => by simp [CutsOf, cutsOf_refl l]
+
+theorem step_xprog (prog0) (s : State) (st : Step) (h : XProgInv prog0 s) : XProgInv prog0 (step s st) := by
+  cases st with
+  | acquire q =>
+    simp only [step]
+    split
+    · rename_i d rest hd
+      intro p
+      obtain ⟨orig, h1, h2⟩ := h p
+      by_cases hp : p = q
+      · subst hp
+        refine ⟨orig ++ [d], by simp [← h1, hd], ?_⟩
+        simp only [List.filter_append, List.filter_cons, List.filter_nil, beq_self_eq_true, if_true, List.map_append, List.map_cons, List.map_nil]
+        exact cutsOf_snoc _ _ _ _ h2 (List.prefix_refl d)
+      · have hqp : (q == p) = false := by simp [Ne.symm hp]
+        refine ⟨orig, by simp [hp, h1], ?_⟩
+        simpa [List.filter_append, hqp] using h2
+    · exact h
+  | pWrite =>
+    simp only [step]; split
+    · intro p; simpa using h p
+    · exact h
+  | _ => simp only [step] <;> (repeat' split) <;> exact h
+
+theorem allocFail_xprog (prog0) (s : State) (hl : LastInv s) (h : XProgInv prog0 s) : XProgInv prog0 (allocFailStep true s) := by
+  cases ho : s.owner with
+  | none => simpa [allocFailStep, ho] using h
+  | some o =>
+    obtain ⟨ini, pre, hacq⟩ := hl o ho
+    have hcut : cutLast s.acq o.remain.length = ini ++ [(o.tid, pre)] := by rw [hacq]; exact cutLast_snoc ini o.tid pre o.remain
+    intro p
+    obtain ⟨orig, h1, h2⟩ := h p
+    simp only [allocFailStep, ho, hcut]
+    refine ⟨orig, h1, ?_⟩
+    rw [hacq] at h2
+    by_cases hp : o.tid = p
+    · subst hp
+      simp only [List.filter_append, List.filter_cons, List.filter_nil, beq_self_eq_true, if_true, List.map_append, List.map_cons,
+        List.map_nil] at h2 ⊢
+      obtain ⟨ds, d, hd1, hd2, hd3⟩ := cutsOf_snoc_inv _ _ _ h2
+      rw [hd1]
+      exact cutsOf_snoc _ _ _ _ hd2 (List.IsPrefix.trans (List.prefix_append pre o.remain) hd3)
+    · have hqp : (o.tid == p) = false := by simp [hp]
+      simpa [List.filter_append, hqp] using h2
+
+theorem xexec_xprog (prog0) (sts : List XStep) : ∀ (s s' : State), XInv s → XProgInv prog0 s → xexec true s sts = some s' →
+    XProgInv prog0 s' := by
+  induction sts with
+  | nil => intro s s' _ h he; simp [xexec] at he; subst he; exact h
+  | cons st sts ih =>
+    intro s s' hi h he
+    simp only [xexec] at he
+    split at he
+    · rename_i hv
+      refine ih _ _ (xstep_xinv s st hv hi) ?_ he
+      cases st with
+      | base b => exact step_xprog prog0 s b h
+      | allocFail => exact allocFail_xprog prog0 s hi.last h
+    · cases he
+
+/-! ### the same with a global ghost: how many recorded appends are cut (round 6) -/
+
+/-- `acq` against the list `O` of the same appends UNCUT: same threads in the same order, each recorded append a prefix of the original -/
+def Cuts2 : List (Nat × List UInt8) → List (Nat × List UInt8) → Prop
+  | [], [] => True
+  | a :: as, o :: os => a.1 = o.1 ∧ a.2 <+: o.2 ∧ Cuts2 as os
+  | _, _ => False
+
+/-- number of entries that really are cut -/
+def nCut : List (Nat × List UInt8) → List (Nat × List UInt8) → Nat
+  | a :: as, o :: os => (if a.2 = o.2 then 0 else 1) + nCut as os
+  | _, _ => 0
+
+theorem cuts2_snoc : ∀ (as os : List (Nat × List UInt8)) (a o : Nat × List UInt8), Cuts2 as os → a.1 = o.1 → a.2 <+: o.2 →
+    Cuts2 (as ++ [a]) (os ++ [o]) ∧ nCut (as ++ [a]) (os ++ [o]) = nCut as os + (if a.2 = o.2 then 0 else 1)
+  | [], [], a, o, _, h1, h2 => by simp [Cuts2, nCut, h1, h2]
+  | [], _ :: _, _, _, h, _, _ => by simp [Cuts2] at h
+  | _ :: _, [], _, _, h, _, _ => by simp [Cuts2] at h
+  | x :: as, y :: os, a, o, h, h1, h2 => by
+    simp only [Cuts2, List.cons_append, nCut] at h ⊢
+    obtain ⟨ih1, ih2⟩ := cuts2_snoc as os a o h.2.2 h1 h2
+    exact ⟨⟨h.1, h.2.1, ih1⟩, by rw [ih2]; omega⟩
+
+theorem cuts2_snoc_inv : ∀ (as O : List (Nat × List UInt8)) (a : Nat × List UInt8), Cuts2 (as ++ [a]) O →
+    ∃ os o, O = os ++ [o] ∧ Cuts2 as os ∧ a.1 = o.1 ∧ a.2 <+: o.2
+  | [], [], _, h => by simp [Cuts2] at h
+  | [], [o], a, h => by simp only [List.nil_append, Cuts2] at h; exact ⟨[], o, rfl, by simp [Cuts2], h.1, h.2.1⟩
+  | [], _ :: _ :: _, _, h => by simp [Cuts2] at h
+  | _ :: _, [], _, h => by simp [Cuts2] at h
+  | x :: as, y :: O, a, h => by
+    simp only [List.cons_append, Cuts2] at h
+    obtain ⟨os, o, h1, h2, h3, h4⟩ := cuts2_snoc_inv as O a h.2.2
+    exact ⟨y :: os, o, by simp [h1], by simp [Cuts2, h.1, h.2.1, h2], h3, h4⟩
+
+/-- the fault-tolerant order invariant with a global ghost: `O` = the appends acquired so far, uncut.  `O` obeys the plain
+per-thread order invariant, `acq` is `O` with at most `n` entries cut -/
+def XOrd (prog0 : Nat → List (List UInt8)) (s : State) (n : Nat) : Prop :=
+  ∃ O, (∀ p, ((O.filter (fun a => a.1 == p)).map (·.2)) ++ s.prog p = prog0 p) ∧ Cuts2 s.acq O ∧ nCut s.acq O ≤ n
+
+theorem step_xord (prog0) (s : State) (st : Step) (n : Nat) (h : XOrd prog0 s n) : XOrd prog0 (step s st) n := by
+  cases st with
+  | acquire q =>
+    simp only [step]
+    split
+    · rename_i d rest hd
+      obtain ⟨O, h1, h2, h3⟩ := h
+      obtain ⟨c1, c2⟩ := cuts2_snoc s.acq O (q, d) (q, d) h2 rfl (List.prefix_refl d)
+      refine ⟨O ++ [(q, d)], ?_, c1, by rw [c2]; simpa using h3⟩
+      intro p
+      have := h1 p
+      by_cases hp : p = q
+      · subst hp; simp [List.filter_append, hd] at this ⊢; exact this
+      · have hqp : (q == p) = false := by simp [Ne.symm hp]
+        simp [List.filter_append, hp, hqp] at this ⊢; exact this
+    · exact h
+  | pWrite =>
+    simp only [step]; split
+    · obtain ⟨O, h1, h2, h3⟩ := h
+      exact ⟨O, by intro p; simpa using h1 p, by simpa using h2, by simpa using h3⟩
+    · exact h
+  | _ => simp only [step] <;> (repeat' split) <;> exact h
+
+theorem allocFail_xord (prog0) (s : State) (n : Nat) (hl : LastInv s) (h : XOrd prog0 s n) :
+    XOrd prog0 (allocFailStep true s) (n + 1) := by
+  cases ho : s.owner with
+  | none =>
+    obtain ⟨O, h1, h2, h3⟩ := h
+    exact ⟨O, by simpa [allocFailStep, ho] using h1, by simpa [allocFailStep, ho] using h2, by simp only [allocFailStep, ho]; omega⟩
+  | some o =>
+    obtain ⟨ini, pre, hacq⟩ := hl o ho
+    have hcut : cutLast s.acq o.remain.length = ini ++ [(o.tid, pre)] := by rw [hacq]; exact cutLast_snoc ini o.tid pre o.remain
+    obtain ⟨O, h1, h2, h3⟩ := h
+    rw [hacq] at h2 h3
+    obtain ⟨os, ol, hO, hc, ht, hp⟩ := cuts2_snoc_inv _ _ _ h2
+    subst hO
+    have hp' : pre <+: ol.2 := List.IsPrefix.trans (List.prefix_append pre o.remain) hp
+    obtain ⟨c1, c2⟩ := cuts2_snoc ini os (o.tid, pre) ol hc ht hp'
+    obtain ⟨_, c3⟩ := cuts2_snoc ini os (o.tid, pre ++ o.remain) ol hc ht hp
+    refine ⟨os ++ [ol], by simpa [allocFailStep, ho] using h1, by simp only [allocFailStep, ho, hcut]; exact c1, ?_⟩
+    simp only [allocFailStep, ho, hcut]
+    rw [c2]; rw [c3] at h3
+    split <;> split at h3 <;> omega
+
+def nFail (xs : List XStep) : Nat := (xs.filter (· == XStep.allocFail)).length
+
+theorem xexec_xord (prog0) (sts : List XStep) : ∀ (s s' : State) (n : Nat), XInv s → XOrd prog0 s n → xexec true s sts = some s' →
+    XOrd prog0 s' (n + nFail sts) := by
+  induction sts with
+  | nil => intro s s' n _ h he; simp [xexec] at he; subst he; simpa [nFail] using h
+  | cons st sts ih =>
+    intro s s' n hi h he
+    simp only [xexec] at he
+    split at he
+    · rename_i hv
+      cases st with
+      | base b =>
+        have := ih _ _ n (xstep_xinv s (.base b) hv hi) (step_xord prog0 s b n h) he
+        simpa [nFail, List.filter_cons] using this
+      | allocFail =>
+        have := ih _ _ (n + 1) (xstep_xinv s .allocFail hv hi) (allocFail_xord prog0 s n hi.last h) he
+        simp only [nFail, List.filter_cons, beq_self_eq_true, if_true, List.length_cons] at this ⊢
+        have e : n + 1 + (List.filter (fun x => x == XStep.allocFail) sts).length = n + ((List.filter (fun x => x == XStep.allocFail) sts).length + 1) := by omega
+        rw [← e]; exact this
+    · cases he
+
+theorem cuts2_eq_of_nCut_zero : ∀ (as os : List (Nat × List UInt8)), Cuts2 as os → nCut as os = 0 → as = os
+  | [], [], _, _ => rfl
+  | [], _ :: _, h, _ => by simp [Cuts2] at h
+  | _ :: _, [], h, _ => by simp [Cuts2] at h
+  | a :: as, o :: os, h, hn => by
+    simp only [Cuts2, nCut] at h hn
+    have h2 : a.2 = o.2 := by
+      by_cases e : a.2 = o.2
+      · exact e
+      · simp [e] at hn
+    have hr : nCut as os = 0 := by simpa [h2] using hn
+    have hao : a = o := Prod.ext h.1 h2
+    rw [cuts2_eq_of_nCut_zero as os h.2.2 hr, hao]
+
 /-- no buffer exists anywhere and a producer waits for one: the back end can run for ever, it never frees a buffer -/
 def Dead (s : State) : Prop :=
   s.free = 0 ∧ s.full = [] ∧ s.curr = none ∧ inflight s.bpc = 0 ∧ ∃ o, s.owner = some o ∧ o.blocked = true
@@ -253,10 +432,6 @@ structure Obj where
   cb : Bool := false         -- a sink callback is installed
   stranded : Nat := 0        -- buffers left in free_buffers_ by an initialize() that threw (never counted in buff_num_)
   life : Option State := none
-
-/-- state of a lifecycle started on an object that carries `extra` stranded buffers -/
-def initOn (extra : Nat) (cfg : Cfg) (prog : Nat → List (List UInt8)) : State :=
-  { init cfg prog with free := cfg.minN + extra }
 
 /-- `AsyncPipe::Impl::initialize`.  `fixed = false`: the code as found has no `inited_` check. -/
 def Obj.initialize (fixed : Bool) (o : Obj) (cfg : Cfg) (prog : Nat → List (List UInt8)) (f : InitFault) : Obj × InitResult :=
